@@ -324,8 +324,38 @@ def pair_trace(tid, d: int, v: int, h: Sequence[int], sd: int) -> List[Dict[str,
     return eva + evb
 
 
+def blind_trace(tid, d: int, v: int, h: Sequence[int], sd: int) -> List[Dict[str, Any]]:
+    """The calls of h are taken WITHOUT looking at the object in between (no
+    has_done(), active_player, contract(), available_bid ...): a caller that
+    trusts the return values.  Refused calls are mixed in; after the end a few
+    more calls follow at once.  Only the results are logged (blind events);
+    the state is shown once, at the very end."""
+    from bridge_env import Bid
+    r = rng('blind', sd, tid)
+    bp, e0 = new_events(tid, d, v)
+    evs = [e0]
+    seq: List[int] = []
+    last = -1
+    for c in h:
+        if r.random() < 0.25:
+            # a refusable call first: an insufficient bid, or a (re)double out of place
+            seq.append(r.choice([x for x in (0, last, DBL, RDBL) if x >= 0]))
+        seq.append(c)
+        if c < 35:
+            last = c
+    seq += [r.choice([PASS, 0, 34, DBL, RDBL]) for _ in range(3)]       # after the end
+    for c in seq:
+        evs.append({'tid': tid, 'ev': 'take', 'call': c, 'res': take(bp, c), 'blind': True})
+    # now look: the state is that of the accepted calls
+    fin = step_event(tid, bp, PASS)
+    evs.append(fin)
+    return evs
+
+
 def _trace_job(job):
     kind, tid, d, v, h = job
+    if kind == 'blind':
+        return blind_trace(tid, d, v, h, seed())
     if kind == 'pair':
         return pair_trace(tid, d, v, h, seed())
     if kind == 'walk':
@@ -422,6 +452,10 @@ def run(pid: str, tier: str) -> int:
     for k in range(60 if quick else 3000):
         d, v, h = random_history(r, styles[k % len(styles)])
         jobs.append(('pair', f'p{k}', d, v, h))
+    # callers that do not look at the object between their calls
+    for k in range(120 if quick else 4000):
+        d, v, h = random_history(r, styles[k % len(styles)])
+        jobs.append(('blind', f'b{k}', d, v, h))
     for d in range(4):
         jobs.append(('prefix' if pid == 'C01' else 'plain', f'long{d}', d,
                      (d + sd) % 4, longest_auction(d)))
